@@ -816,6 +816,16 @@ class State:
             return r
         last = p.split('::')[-1]
         recv = self.refine(a[0]) if a else None
+        if last == 'map' and 'array::<impl' in p and recv is not None and recv[0] == 'list' and len(a) == 2:
+            # `[x, y].map(f)`: element-wise, in order
+            return ('list', tuple(self.apply(a[1], [it], node) for it in recv[1]))
+        if last == 'not' and len(a) == 1 and (p.endswith('ops::Not::not') or p.startswith('anyhow::')):
+            # boolean negation spelt as a call (`anyhow::ensure!` goes through a helper fn)
+            if recv[0] == 'lit' and isinstance(recv[1], bool):
+                return lit(not recv[1], 'bool')
+            if recv[0] == 'un' and recv[1] == 'Not':
+                return recv[2]
+            return ('un', 'Not', recv)
         is_opt = p.startswith('std::option::Option::') or p.startswith('core::option::Option::')
         is_res = p.startswith('std::result::Result::') or p.startswith('core::result::Result::')
         if is_opt or is_res:
@@ -849,7 +859,7 @@ class State:
                 if recv[0] == 'ctor':
                     return lit((recv[2] == good) == want_good, 'bool')
                 return ('call', p, (recv,))
-            if last in ('as_ref', 'as_mut', 'as_deref', 'cloned', 'copied', 'take'):
+            if last in ('as_ref', 'as_mut', 'as_deref', 'as_deref_mut', 'cloned', 'copied', 'take'):
                 if last == 'take' and self.policy.is_effect(p):
                     self.effect('call', p, a, node)
                 return recv
@@ -1027,6 +1037,24 @@ class State:
             return ('call', p, tuple(a))
         if last in ('collect', 'cloned', 'copied'):
             return s
+        if last == 'try_for_each' and len(a) == 2:
+            # a loop whose body may stop it with an error: one generic iteration; an Err (None) ends the whole call with
+            # that value, otherwise the traversal completes with Ok(()) (Some(()))
+            fn = a[1]
+            items = s[1] if s[0] == 'list' else None
+            if items is None:
+                self.loops.append(s[1])
+            try:
+                for it in (items if items is not None else [s[2]]):
+                    r = self.refine(self.apply(fn, [it], node))
+                    if r[0] != 'ctor':
+                        self.split_enum(r, RESULT if 'Result' in (node.get('ty') or 'Result') else OPTION, 'try_for_each')
+                    if r[2] in ('Err', 'None'):
+                        return r
+            finally:
+                if items is None:
+                    self.loops.pop()
+            return ok(UNIT) if 'Option' not in (node.get('ty') or '') else some(UNIT)
         if last in ('for_each',):
             fn = a[1]
             if s[0] == 'list':
@@ -1052,7 +1080,26 @@ class State:
                     if last == 'any' and c:
                         return lit(True, 'bool')
                 return lit(res, 'bool')
-            if s[0] == 'seq' and len(a) > 1 and self.refine(a[1])[0] == 'closure':
+            if s[0] == 'seq' and len(a) > 1 and (self.refine(a[1])[0] == 'closure' or (
+                    self.refine(a[1])[0] == 'fnitem' and self.refine(a[1])[1] in self.f.hir
+                    and self.policy.should_inline(self.refine(a[1])[1], self.depth)
+                    and not self.policy.is_effect(norm_path(self.refine(a[1])[1])))):
+                # (a named local function used as the predicate is looked through like a closure)
+                if last == 'find_map':
+                    # a closure that *does* something per element is a search loop in disguise: one generic iteration, in
+                    # the loop's context; finding something ends the loop early
+                    n0 = len(self.trace)
+                    self.loops.append(s[1])
+                    try:
+                        pred = self.apply(a[1], [s[2]], node)
+                        pr = self.refine(pred)
+                        if len(self.trace) > n0 and pr[0] == 'ctor' and pr[2] == 'Some':
+                            self.effect('loop_exit', 'find_map', (), node)
+                    finally:
+                        self.loops.pop()
+                    if len(self.trace) > n0 and pr[0] == 'ctor' and pr[2] in ('Some', 'None'):
+                        return pr
+                    return ('call', 'iter::' + last, (s, pred))
                 # keep the predicate visible as a term over the generic element
                 try:
                     pred = self.apply(a[1], [s[2]], node)
@@ -1162,6 +1209,24 @@ class State:
                 raise NeedSplit(key, [True, False], 'const pattern')
             a = self.f.adt(adt)
             is_enum = (a['kind'] == 'enum') if a else adt in (OPTION, RESULT, 'core::option::Option', 'core::result::Result')
+            if a is None and not is_enum and variant and variant != adt.split('::')[-1] and v[0] != 'ctor':
+                # a variant of an enum defined outside the crate (its definition is not in the facts): the value is this
+                # variant or some other one
+                this = ctor(adt, variant, [(str(i), ('field', v, variant + '.' + str(i))) for i in range(len(pat.get('pats', [])))]
+                            + [(fp['name'], ('field', v, variant + '.' + fp['name'])) for fp in pat.get('fields', [])])
+                raise NeedSplit(v, [this, ctor(adt, '#other-than-' + variant, [('#of', v)])], 'pattern ' + variant)
+            if a is None and not is_enum and v[0] == 'ctor' and v[1] == adt and variant and variant != adt.split('::')[-1]:
+                if v[2].startswith('#other-than-'):
+                    if v[2] == '#other-than-' + variant:
+                        return False
+                    # "some other variant" meets a pattern for a variant it can be: taken to be that one (exact for the
+                    # two-variant enums this is for - Entry, Cow, Ordering-like results, ControlFlow)
+                    orig = cfield(v, '#of')
+                    npats = len(pat.get('pats', []))
+                    v = ctor(adt, variant, [(str(i), ('field', orig, variant + '.' + str(i))) for i in range(npats)]
+                             + [(fp['name'], ('field', orig, variant + '.' + fp['name'])) for fp in pat.get('fields', [])])
+                elif v[2] != variant:
+                    return False
             if v[0] != 'ctor':
                 if is_enum:
                     self.split_enum(v, adt, 'pattern ' + variant)
@@ -1304,7 +1369,7 @@ class State:
                 self.depth += 1
                 try:
                     v = self.expr(c['body'], {})
-                    if v[0] in ('lit', 'ctor', 'list', 'tup'):
+                    if v[0] in ('lit', 'ctor', 'list', 'tup', 'call', 'bin'):
                         return v
                 except (EvalError, KeyError):
                     pass
